@@ -7,13 +7,16 @@ Inductive case :=
              (opened closed : Z) (leak : bool)
   | CaseBody (id : Z) (kind : body_kind) (size : Z) (offset : nat) (is_error no_body each_complete : bool)
   | CaseGRPC (id : Z) (codes : list Z) (calls : Z) (ret : Z) (args_ok md_seen reply_ok leak : bool)
+  (* attempts overlapping in time: how many attempts, how many were not cancelled when they finished reading the body,
+     did each of those / each attempt at all receive the complete body *)
+  | CaseOverlap (id : Z) (kind : body_kind) (attempts live : Z) (live_ok all_ok leak : bool)
   (* a core-library scenario run in a bubble followed by a virtual hour: did any goroutine remain blocked? *)
   | CaseCore (id : Z) (kind : Z) (leak : bool)
   (* the spawn sites found in the sources of this run *)
   | CaseSites (id : Z) (sites : list site).
 
 Definition case_id (c : case) : Z :=
-  match c with CaseHTTP id _ _ _ _ _ _ _ _ _ _ _ _ _ _ _ | CaseBody id _ _ _ _ _ _ | CaseGRPC id _ _ _ _ _ _ _ | CaseCore id _ _ | CaseSites id _ => id end.
+  match c with CaseHTTP id _ _ _ _ _ _ _ _ _ _ _ _ _ _ _ | CaseBody id _ _ _ _ _ _ | CaseGRPC id _ _ _ _ _ _ _ | CaseOverlap id _ _ _ _ _ _ | CaseCore id _ _ | CaseSites id _ => id end.
 
 (* the harness repeats the last scripted behaviour when the script is shorter than the number of attempts *)
 Definition pad (script : list attempt_result) : list attempt_result :=
@@ -70,6 +73,10 @@ Definition agrees (c : case) : bool :=
   | CaseGRPC _ codes calls ret args md reply leak =>
       let '(n, r) := grpc_calls (codes ++ repeat (last codes (-1)) 4) 2 0 in
       (calls =? n) && (ret =? r) && args && md && reply && negb leak
+  | CaseOverlap _ kind attempts live live_ok all_ok leak =>
+      (* the model's attempt bodies are a function of the original body alone (bodies_of_attempts): no attempt can
+         disturb another, whether or not they overlap *)
+      (2 <=? attempts) && (1 <=? live) && live_ok && all_ok && negb leak
   | CaseCore _ _ leak => negb leak
   | CaseSites _ sites => sites_known sites && negb (Nat.eqb (List.length sites) 0)
   end.
@@ -82,6 +89,7 @@ Definition checker18 (c : case) : bool :=
       (attempts =? k) && (status =? st) && (errcode =? ec)
       && forallb (fun p => snd p <=? fst p) (combine (diffs instants) ds)     (* waits at least the Retry-After *)
       && bodies && same && vals && dl && readable
+  | CaseOverlap _ _ attempts live live_ok _ _ => (2 <=? attempts) && (1 <=? live) && live_ok
   | _ => agrees c
   end.
 
@@ -92,6 +100,7 @@ Definition checker19 (c : case) : bool :=
       negb leak && (closed =? opened)      (* the harness closes the returned response's body itself *)
   | CaseGRPC _ _ _ _ _ _ _ leak => negb leak
   | CaseBody _ _ _ _ _ _ _ => true
+  | CaseOverlap _ _ _ _ _ _ leak => negb leak
   | CaseCore _ _ leak => negb leak
   | CaseSites _ sites => sites_known sites
   end.
